@@ -13,7 +13,12 @@
 //	seq       all sequences of length <= L over 4 messages x every set of
 //	          <= k cuts x three end-of-stream modes
 //	large     boundary payload lengths up to the limit
-//	refuse    wrong magic / version / type / over-limit size
+//	refuse    wrong magic / version / type (every invalid byte) x announced
+//	          payload size {0,1,5,64,70000,limit} x following bytes; over-limit
+//	          sizes
+//	history   sequences of calls, some of which must go wrong (refused header,
+//	          stream ending inside a message, writer reporting an error), each
+//	          history in its own fresh process: see history.go
 //	wfrag     Message.Write through a writer doing short writes at every set
 //	          of <= k cut positions; payload length != Header.Size
 package main
@@ -659,10 +664,23 @@ func familyLarge(thorough bool) {
 }
 
 type refusal struct {
+	kind string // magic / version / type / size
 	name string
 	raw  []byte
+	size uint32 // the announced payload size
 }
 
+// refuseSizes are the payload sizes a refused header announces (the size
+// kind announces its own): none, one byte, small, above 64 KiB, the limit.
+func refuseSizes() []uint32 {
+	return []uint32{0, 1, 5, 64, 70000, uint32(net.MaxPayloadSize)}
+}
+
+// refusals is the product of the refusal classes with the announced payload
+// sizes: every single-byte corruption of the magic (5 values per byte) and
+// the little-endian magic, versions {1, 2, 0xff, 0x100, 0x8000, 0xffff},
+// EVERY type byte outside 1..8 (0, 9..255), each x refuseSizes(); and the
+// over-limit sizes.
 func refusals() []refusal {
 	base := refmodel.Header{ID: 0x01020304, Type: 1, Service: 0x05060708, Object: 0x090a0b0c, Action: 0x0d0e0f10}
 	limit := uint32(net.MaxPayloadSize)
@@ -672,71 +690,218 @@ func refusals() []refusal {
 		h.Size = size
 		return refmodel.EncodeHeader(h)
 	}
-	// every single-byte corruption of the magic: each of the 4 bytes
-	// replaced by 0x00, 0xff, its value +1 and its bit-flipped low bit
-	for i := 0; i < 4; i++ {
-		orig := good(5)[i]
-		for _, v := range []byte{0x00, 0xff, orig + 1, orig ^ 1, orig ^ 0x80} {
-			if v == orig {
+	for _, size := range refuseSizes() {
+		for i := 0; i < 4; i++ {
+			orig := good(size)[i]
+			for _, v := range []byte{0x00, 0xff, orig + 1, orig ^ 1, orig ^ 0x80} {
+				if v == orig {
+					continue
+				}
+				b := good(size)
+				b[i] = v
+				out = append(out, refusal{"magic", fmt.Sprintf("magic/byte%d=%#x", i, v), b, size})
+			}
+		}
+		le := good(size)
+		le[0], le[1], le[2], le[3] = 0x42, 0xad, 0xde, 0x42 // 0x42dead42 in little endian
+		out = append(out, refusal{"magic", "magic/little-endian", le, size})
+		for _, v := range []uint16{1, 2, 0xff, 0x100, 0x8000, 0xffff} {
+			b := good(size)
+			b[12], b[13] = byte(v), byte(v>>8)
+			out = append(out, refusal{"version", fmt.Sprintf("version/%#x", v), b, size})
+		}
+		for v := 0; v < 256; v++ {
+			if v >= 1 && v <= 8 {
 				continue
 			}
-			b := good(5)
-			b[i] = v
-			out = append(out, refusal{fmt.Sprintf("magic/byte%d", i), b})
+			b := good(size)
+			b[14] = uint8(v)
+			out = append(out, refusal{"type", fmt.Sprintf("type/%d", v), b, size})
 		}
 	}
-	le := good(5)
-	le[0], le[1], le[2], le[3] = 0x42, 0xad, 0xde, 0x42 // 0x42dead42 in little endian
-	out = append(out, refusal{"magic/little-endian", le})
-	for _, v := range []uint16{1, 0x100, 0xffff} {
-		b := good(5)
-		b[12], b[13] = byte(v), byte(v>>8)
-		out = append(out, refusal{fmt.Sprintf("version/%#x", v), b})
+	// over-limit sizes, among them values whose low bytes look small, with
+	// every valid message type
+	for _, v := range []uint32{limit + 1, limit + 2, limit + 0x100, limit + 0x10000, 0x01000000, 0x7fffffff, 0x80000000, 0x80000001, 0xff000000, 0xffffffff} {
+		for typ := uint8(1); typ <= 8; typ++ {
+			b := good(v)
+			b[14] = typ
+			out = append(out, refusal{"size", fmt.Sprintf("size/%#x/type%d", v, typ), b, v})
+		}
 	}
-	for _, v := range []uint8{0, 9, 255} {
-		b := good(5)
-		b[14] = v
-		out = append(out, refusal{fmt.Sprintf("type/%d", v), b})
+	// the other fields of a refused header: 9 representative refusals x
+	// announced size {0,5} x flags {0,1,0x80,0xff} x valid types 1..8 (when
+	// the type is not what is wrong) x id/service/object/action all zero /
+	// all ones / byte-asymmetric
+	corrupt := []struct {
+		kind, name string
+		apply      func(b []byte)
+	}{
+		{"magic", "magic/little-endian", func(b []byte) { b[0], b[1], b[2], b[3] = 0x42, 0xad, 0xde, 0x42 }},
+		{"magic", "magic/byte0=0x43", func(b []byte) { b[0] = 0x43 }},
+		{"version", "version/0x1", func(b []byte) { b[12], b[13] = 1, 0 }},
+		{"version", "version/0xffff", func(b []byte) { b[12], b[13] = 0xff, 0xff }},
+		{"type", "type/0", func(b []byte) { b[14] = 0 }},
+		{"type", "type/9", func(b []byte) { b[14] = 9 }},
+		{"type", "type/255", func(b []byte) { b[14] = 255 }},
+		{"size", "size/limit+1", func(b []byte) {
+			v := limit + 1
+			b[8], b[9], b[10], b[11] = byte(v), byte(v>>8), byte(v>>16), byte(v>>24)
+		}},
+		{"size", "size/0xffffffff", func(b []byte) { b[8], b[9], b[10], b[11] = 0xff, 0xff, 0xff, 0xff }},
 	}
-	for _, v := range []uint32{limit + 1, 0x7fffffff, 0x80000000, 0xffffffff} {
-		out = append(out, refusal{fmt.Sprintf("size/%#x", v), good(v)})
+	for _, c := range corrupt {
+		for _, size := range []uint32{0, 5} {
+			if c.kind == "size" && size != 0 {
+				continue
+			}
+			for _, fl := range []uint8{0, 1, 0x80, 0xff} {
+				for typ := uint8(1); typ <= 8; typ++ {
+					if c.kind == "type" && typ != 1 {
+						continue
+					}
+					for fi, fill := range [][4]uint32{{0, 0, 0, 0}, {0xffffffff, 0xffffffff, 0xffffffff, 0xffffffff}, {0x01020304, 0x05060708, 0x090a0b0c, 0x0d0e0f10}} {
+						h := refmodel.Header{ID: fill[0], Size: size, Type: typ, Flags: fl, Service: fill[1], Object: fill[2], Action: fill[3]}
+						b := refmodel.EncodeHeader(h)
+						c.apply(b)
+						sz := size
+						if c.kind == "size" {
+							sz = uint32(b[8]) | uint32(b[9])<<8 | uint32(b[10])<<16 | uint32(b[11])<<24
+						}
+						out = append(out, refusal{c.kind, fmt.Sprintf("%s/flags%#x/type%d/fields%d", c.name, fl, typ, fi), b, sz})
+					}
+				}
+			}
+		}
 	}
 	return out
 }
 
-func familyRefuse() {
-	fam := run.Family("refuse")
+func sizeClass(kind string, size uint32) string {
+	if kind == "size" {
+		return "over-limit"
+	}
+	switch {
+	case size == 0:
+		return "0"
+	case size == uint32(net.MaxPayloadSize):
+		return "limit"
+	case size > 64:
+		return "large"
+	}
+	return "small"
+}
+
+// tryRefuse feeds one header that must be refused, followed by follow bytes,
+// to Message.Read.
+func tryRefuse(raw []byte, follow []byte, chunk int) (string, string) {
+	stream := append(append(make([]byte, 0, len(raw)+len(follow)), raw...), follow...)
+	rd := enum.NewFragReader(stream, nil, enum.EOFSeparate, chunk)
+	var m net.Message
+	err := m.Read(rd)
+	if err == nil {
+		return "accepted", fmt.Sprintf("Read returned nil (header %+v, %d payload bytes)", m.Header, len(m.Payload))
+	}
+	if rd.Pos() > 28 {
+		return "payload-read", fmt.Sprintf("Read refused (%v) but only after taking %d bytes from the stream (header is 28)", err, rd.Pos())
+	}
+	return "", ""
+}
+
+// hugeAnnounced: a refused header announcing more than this is not tried
+// inside the check's own process (a repository that does not refuse it would
+// allocate what is announced, 16 workers at a time); it is handed to the
+// history family, whose processes have a capped address space.
+const hugeAnnounced = 64 << 20
+
+func splitRefusals() (inProcess []refusal, huge []string) {
 	for _, rf := range refusals() {
-		for _, follow := range []int{0, 5, 64} {
-			for _, chunk := range []int{0, 1} {
-				stream := append(append([]byte(nil), rf.raw...), payload(follow)...)
-				try := func() (string, string) {
-					rd := enum.NewFragReader(stream, nil, enum.EOFSeparate, chunk)
-					var m net.Message
-					err := m.Read(rd)
-					if err == nil {
-						return "accepted", fmt.Sprintf("Read returned nil (header %+v, %d payload bytes)", m.Header, len(m.Payload))
-					}
-					if rd.Pos() > 28 {
-						return "payload-read", fmt.Sprintf("Read refused (%v) but only after taking %d bytes from the stream (header is 28)", err, rd.Pos())
-					}
-					return "", ""
-				}
-				clause, det := try()
-				run.Eval(fam, 1)
-				run.Distinct(fmt.Sprintf("refuse|%s|follow%d|chunk%d|%s", strings.SplitN(rf.name, "/", 2)[0], follow, chunk, clause))
-				if clause != "" {
-					kind := strings.SplitN(rf.name, "/", 2)[0]
-					run.Violation("read/refuse/"+kind+"/"+clause, fmt.Sprintf("%s|%03d|%d", rf.name, follow, chunk),
-						fmt.Sprintf("header with bad %s followed by %d bytes: %s", rf.name, follow, det),
-						map[string]interface{}{"entry": "net.Message.Read", "header_hex": hex.EncodeToString(rf.raw), "following_bytes": follow, "chunk": chunk,
-							"observed": det, "expected": "an error, with at most 28 bytes taken from the stream"},
-						func() bool { c, _ := try(); return c == clause })
-				}
+		if rf.size > hugeAnnounced {
+			for _, follow := range []int{0, 64} {
+				huge = append(huge, fmt.Sprintf("R:hdr:%s:%s:%d", rf.kind, hex.EncodeToString(rf.raw), follow))
+			}
+			continue
+		}
+		inProcess = append(inProcess, rf)
+	}
+	return inProcess, huge
+}
+
+func familyRefuse(rfs []refusal) {
+	fam := run.Family("refuse")
+	big := payload(int(net.MaxPayloadSize))
+	// the bytes that follow the header: nothing, fewer than announced, exactly
+	// the announced payload, more than announced
+	follows := func(rf refusal) []int {
+		set := map[int]bool{0: true, 5: true, 64: true}
+		// streams of the limit's length (10 MiB each) for five representative
+		// headers only: a header that is refused never gets that far, and one
+		// that is not already shows with the shorter streams
+		rep := map[string]bool{"magic/little-endian": true, "version/0x1": true, "type/0": true, "type/9": true, "type/255": true}
+		if rf.kind != "size" && (rf.size <= 70000 || rep[rf.name]) {
+			set[int(rf.size)] = true
+			if rf.size > 0 {
+				set[int(rf.size)-1] = true
+			}
+			if rf.size < uint32(net.MaxPayloadSize) {
+				set[int(rf.size)+1] = true
 			}
 		}
+		var out []int
+		for n := range set {
+			out = append(out, n)
+		}
+		sort.Ints(out)
+		return out
 	}
-	run.Sample(12, map[string]interface{}{"family": "refuse", "example": "magic in little endian 42adde42..., version 0x100, type 9, size limit+1"})
+	run.Parallel(len(rfs), func(i int) {
+		rf := rfs[i]
+		local := map[string]int{}
+		for _, follow := range follows(rf) {
+			for _, chunk := range []int{0, 1} {
+				if chunk == 1 && follow > 70001 {
+					continue // one byte per read matters for the header; 10 MiB that way only costs time
+				}
+				fb := big[:follow]
+				clause, det := tryRefuse(rf.raw, fb, chunk)
+				run.Eval(fam, 1)
+				fc := "none"
+				switch {
+				case follow == 0:
+				case rf.kind != "size" && follow == int(rf.size):
+					fc = "announced"
+				case rf.kind != "size" && follow < int(rf.size):
+					fc = "fewer"
+				default:
+					fc = "more"
+				}
+				local[fmt.Sprintf("refuse|%s|announced-%s|follow-%s|chunk%d|%s", rf.kind, sizeClass(rf.kind, rf.size), fc, chunk, clause)]++
+				if clause == "" {
+					continue
+				}
+				// attribution: the historical fingerprint read/refuse/<kind>/<clause>
+				// stands for "fails whatever the announced size" (decided on the
+				// same header announcing 5 bytes); otherwise the size class that
+				// is needed is part of the fingerprint
+				fp := "read/refuse/" + rf.kind + "/" + clause
+				if rf.kind != "size" {
+					b5 := append([]byte(nil), rf.raw...)
+					b5[8], b5[9], b5[10], b5[11] = 5, 0, 0, 0
+					if c5, _ := tryRefuse(b5, big[:5], chunk); c5 == "" {
+						fp += "/announced-size=" + sizeClass(rf.kind, rf.size)
+					}
+				}
+				raw, name := rf.raw, rf.name
+				run.Violation(fp, fmt.Sprintf("%010d|%09d|%d|%s", rf.size, follow, chunk, rf.name),
+					fmt.Sprintf("header with bad %s announcing a %d-byte payload, followed by %d bytes: %s", name, rf.size, follow, det),
+					map[string]interface{}{"entry": "net.Message.Read", "header_hex": hex.EncodeToString(raw), "announced_size": rf.size, "following_bytes": follow, "chunk": chunk,
+						"observed": det, "expected": "an error, with at most 28 bytes taken from the stream"},
+					func() bool { c, _ := tryRefuse(raw, fb, chunk); return c == clause })
+			}
+		}
+		run.DistinctSet(local)
+	})
+	run.Sample(12, map[string]interface{}{"family": "refuse", "example": "magic in little endian 42adde42..., version 0x100, type 9 announcing 0 / 1 / 5 / 64 / 70000 / limit bytes, size limit+1",
+		"headers": len(rfs)})
 }
 
 func familyWriteFrag(k int, thorough bool) {
@@ -836,7 +1001,17 @@ func familyWriteFrag(k int, thorough bool) {
 }
 
 func main() {
-	run = enum.NewRun("C01", 38*time.Second, 8*time.Minute)
+	if len(os.Args) == 3 && os.Args[1] == "--history" {
+		// this process is a fresh one started to run histories (one given on
+		// the command line, or a batch on the standard input); does not return
+		specs := []string{os.Args[2]}
+		if os.Args[2] == "-" {
+			b, _ := io.ReadAll(os.Stdin)
+			specs = strings.Fields(string(b))
+		}
+		histChild(specs)
+	}
+	run = enum.NewRun("C01", 45*time.Second, 9*time.Minute)
 	thorough := run.Thorough()
 	k, seqLen := 2, 3
 	if thorough {
@@ -851,7 +1026,9 @@ func main() {
 			run.EngineError("refmodel header self-check failed for %+v: %v", h, err)
 		}
 	}
-	familyRefuse()
+	refuseHere, refuseHuge := splitRefusals()
+	histExtra := familyHistory(thorough, refuseHuge)
+	familyRefuse(refuseHere)
 	familyLayout(hs)
 	familyLarge(thorough)
 	familyWriteFrag(k, thorough)
@@ -864,18 +1041,28 @@ func main() {
 		"frag = |Hf| headers x payload lengths 0..64 x every set of <= k cut positions among the interior offsets x 3 end-of-stream modes; " +
 		"seq = every sequence of length <= L over 4 fixed messages (payload 0,1,5,40) x every set of <= k cuts x 3 modes; " +
 		"large = 10 boundary payload lengths up to MaxPayloadSize x cuts around the header/payload boundary x chunked readers; " +
-		"refuse = corrupted magic/version/type/size headers x {0,5,64} following bytes; wfrag = short-write patterns with <= k cuts. " +
+		"refuse = (every single-byte corruption of the magic + the little-endian magic, versions {1,2,0xff,0x100,0x8000,0xffff}, every type byte outside 1..8) x announced payload size {0,1,5,64,70000,limit} " +
+		"+ 10 over-limit sizes x the 8 valid types + 9 representative refusals x announced size {0,5} x flags {0,1,0x80,0xff} x valid types x {all-zero, all-ones, byte-asymmetric} id/service/object/action, each x following bytes {none, 5, 64, announced-1, announced, announced+1 (10 MiB streams for 5 representative headers)} x {unfragmented, 1 byte per read} - except the headers announcing more than 64 MiB, which are run as one-call histories (followed by 0 and 64 bytes) in the history processes, whose address space is capped at 3 GiB; wfrag = short-write patterns with <= k cuts; " +
+		"history = sequences of Read/Write calls executed in fresh processes (GOMAXPROCS=1, GC off), every call judged; thorough: one process per history of length <= 3; quick (and length 4 in thorough): 48 histories back to back per process, and a history that fails is re-run FROM THE START ALONE IN A FRESH PROCESS (as is every step of its reduction) - " +
+		"if it fails alone its fingerprint names the calls that must precede the failing one, if it only fails after the other histories of its process that sequence is re-run in a fresh process and it is reported with /depends-on-earlier-calls: " +
+		"every operation alone; every pair (operation that must go wrong, valid operation), (valid, wrong) and (valid, valid over 5 messages, payload 0,1,5,40,70000) per direction and across directions, where the read operations that go wrong are " +
+		"9 refusal kinds x announced size {0,1,5,70000} + 2 over-limit sizes + a stream ending after {0,1,4,27,28,29,30,32} of 33 bytes x {EOF with the data, EOF separate} and the write operations that fail are " +
+		"messages {payload 0,5,40} x accepted bytes {0,1,28,all but one,all} x error {io.EOF, io.ErrClosedPipe, other} x {error with the last bytes, error on the next call}; " +
+		"every sequence of length 3 (thorough: and 4) over a 10-letter read alphabet and an 8-letter write alphabet (thorough: also every mixed sequence of length 3 over the 18 letters; the letters are listed under history_family); " +
+		"modes: own stream per call / one shared stream / one reused Message value. A failing history is reduced by dropping preceding calls (fresh process per attempt); its fingerprint names the failing call and the calls that must precede it (after=...). " +
 		"A case class is (family, message type or sequence length, end-of-stream mode, number of short reads actually experienced by the reader (0,1,2,3+), " +
 		"zone of the cuts (header / header-end / payload / message boundary), outcome); distinct_nontrivial counts the distinct classes that were executed"
 	extra := map[string]interface{}{
 		"headers_H": len(hs), "headers_Hf": len(fh), "max_cuts_k": k, "max_sequence_length": seqLen,
-		"payload_limit": net.MaxPayloadSize,
+		"payload_limit": net.MaxPayloadSize, "refused_headers": len(refusals()), "refused_headers_announcing_more_than_64MiB_run_in_history_processes": len(refuseHuge) / 2, "history_family": histExtra,
 	}
 	assumptions := []string{
 		"(0, nil) reads are excluded from the fragmentations (io.Reader discourages them; the property speaks of fragmentations of the stream)",
 		"payload lengths between 65 bytes and the listed boundary lengths are not enumerated",
 		"the size limit is the repository constant net.MaxPayloadSize",
 		"short writes (n < len(p) with a nil error) are outside the io.Writer contract; they are enumerated because WriteN documents a retry loop",
+		"state kept between calls is explored by the history family only up to 3 calls (4 in thorough) and inside one process on one P (GOMAXPROCS=1, GC off: a pooled object put back by a call is the one the next call gets); concurrent callers are C10's business",
+		"a failure observed in one of the in-process families that does not show again when the case is re-run alone is reported with the suffix /depends-on-earlier-calls (it is a violation: the repository keeps state between calls), never as an engine error",
 	}
 	os.Exit(run.Finish(rule, true, extra, assumptions))
 }
